@@ -600,7 +600,9 @@ class Interp:
             return abs(x)
         if isinstance(x, TD):
             self.ops_seen.add("abs(timedelta)")
-            return TD(term=x.term, mag=x.mag, secs=abs(x.secs) if x.secs is not None else None)
+            if x.secs is not None:
+                return TD(secs=abs(x.secs), term={"second": abs(x.secs)} if x.secs else {})
+            return TD(term=x.term, mag=x.mag)
         raise Unsupported(f"abs({x!r})")
 
     def _range(self, i, a, k):
@@ -1093,6 +1095,10 @@ class Interp:
                 if not o.is_datetime:
                     raise AbsRaise("AttributeError", f"'datetime.date' object has no attribute {name!r}")
                 return ("field", name)
+            if name == "microsecond" and o.is_datetime and getattr(self, "subsecond_ranks", False) \
+                    and isinstance(o.rank, int):
+                # convention of the caller's model: four consecutive ranks share one second
+                return (o.rank % 4) * 250000
             if name == "utcoffset":
                 def utcoffset(i, a, k, o=o):
                     if not o.is_datetime:
@@ -1229,6 +1235,12 @@ class Interp:
 
     def _dt_replace(self, o, a, k):
         self.ops_seen.add("datetime.replace")
+        if set(k) == {"microsecond"} and not a and o.is_datetime and getattr(self, "subsecond_ranks", False) \
+                and isinstance(o.rank, int) and isinstance(k["microsecond"], int) \
+                and k["microsecond"] % 250000 == 0 and 0 <= k["microsecond"] < 1000000:
+            self.ops_seen.add("datetime.replace(microsecond)")
+            new_rank = o.rank - o.rank % 4 + k["microsecond"] // 250000
+            return o if new_rank == o.rank else o.with_(rank=new_rank, tag="sub-second-changed")
         if "tzinfo" in k:
             if not o.is_datetime:
                 raise AbsRaise("TypeError", "replace() got an unexpected keyword argument 'tzinfo'")
@@ -1656,14 +1668,16 @@ class Interp:
         return NT(ntc.name, ntc.fields, vals)
 
     def _zip(self, i, a, k):
-        cols = []
-        finite = [self._as_list(x) for x in a if not isinstance(x, (Repeat, Count))]
+        # every argument is consumed exactly once (a generator cannot be read twice)
+        mat = [x if isinstance(x, (Repeat, Count)) else self._as_list(x) for x in a]
+        finite = [c for c in mat if isinstance(c, list)]
         if not finite:
             raise Unsupported("zip() of infinite iterators only")
         n = min(len(c) for c in finite)
-        for x in a:
-            cols.append([x.value] * n if isinstance(x, Repeat) else x.take(n) if isinstance(x, Count)
-                        else self._as_list(x)[:n])
+        if k.get("strict") and any(len(c) != n for c in finite):
+            raise AbsRaise("ValueError", "zip() arguments have different lengths")
+        cols = [[c.value] * n if isinstance(c, Repeat) else c.take(n) if isinstance(c, Count) else c[:n]
+                for c in mat]
         return [tuple(t) for t in zip(*cols)]
 
     def _next(self, i, a, k):
@@ -1698,6 +1712,18 @@ class Interp:
                 return Native("count", lambda i, a, k: Count(
                     self._concrete_int(a[0] if a else k.get("start", 0)),
                     self._concrete_int(a[1] if len(a) > 1 else k.get("step", 1))))
+            if name == "groupby":
+                def groupby(i, a, k):
+                    key = a[1] if len(a) > 1 else k.get("key")
+                    out = []
+                    for x in self._as_list(a[0]):
+                        kx = x if key is None else self.call(key, [x], {})
+                        if out and (self._identical(out[-1][0], kx) or self._equal(out[-1][0], kx)):
+                            out[-1][1].append(x)
+                        else:
+                            out.append((kx, [x]))
+                    return [(kx, grp) for kx, grp in out]
+                return Native("groupby", groupby)
             if name == "filterfalse":
                 return Native("filterfalse", lambda i, a, k: [
                     x for x in self._as_list(a[1])
@@ -2035,6 +2061,10 @@ class Interp:
                     and b.term is not None else None
                 if t == {}:
                     return TD(term={}, secs=0)
+                if a.aware and (a.kind, a.zone) != (b.kind, b.zone):
+                    # aware values of different zones are subtracted as instants; adding the
+                    # result to a zoned value moves its *wall clock* by that much instead
+                    return TD(not a.is_datetime, t, tag="instant-diff")
                 return TD(not a.is_datetime, t, tag="diff")
             if isinstance(a, (int, float)) and isinstance(b, (int, float)):
                 return a - b
@@ -2108,7 +2138,11 @@ class Interp:
         elif rank is not None and td.mag != "zero":
             # abstract durations are positive: the result is strictly later/earlier
             rank = rank + (0.5 if sign > 0 else -0.5)
-        tag = d.tag if d.tag == "seconds-dropped" else None
+        tag = d.tag if d.tag in ("seconds-dropped", "instant-moved") else None
+        if tag is None and d.kind == "zoned" and td.tag == "instant-diff" and self.provider != "pytz":
+            # wall-clock arithmetic with a difference of instants: off by the change of the
+            # zone's offset between the two ends
+            tag = "instant-moved"
         if tag is None and self.provider == "pytz" and d.kind == "zoned" and td.mag != "zero":
             # pytz: arithmetic keeps the old fixed offset - the instant is right, the
             # wall clock may be off by a DST delta until tz.normalize() is applied
